@@ -12,18 +12,20 @@ template<typename T>
 struct verif_atomic {
 	std::atomic<T> a;
 	mutable vclock::Rel hb;          // release clock attached to the current value (vclock.hpp)
+	using value_type = T;
+	static constexpr bool is_always_lock_free = std::atomic<T>::is_always_lock_free;
 	verif_atomic() noexcept = default;
 	constexpr verif_atomic(T v) noexcept : a(v) {}
 	verif_atomic(const verif_atomic &) = delete;
 	verif_atomic &operator=(const verif_atomic &) = delete;
 	T load(std::memory_order mo = std::memory_order_seq_cst) const { dsched::point(); T v = a.load(mo); hb.on_load(mo); vclock::mirror_read(&a, mo); return v; }
 	void store(T v, std::memory_order mo = std::memory_order_seq_cst) { dsched::point(); hb.on_store(mo); vclock::mirror_write(&a, mo); a.store(v, mo); }
-	T exchange(T v, std::memory_order mo = std::memory_order_seq_cst) { dsched::point(); hb.on_rmw(mo); vclock::mirror_write(&a, mo); T r = a.exchange(v, mo); vclock::mirror_read(&a, mo); vclock::note_rmw(); return r; }
-	T fetch_add(T v, std::memory_order mo = std::memory_order_seq_cst) { dsched::point(); hb.on_rmw(mo); vclock::mirror_write(&a, mo); T r = a.fetch_add(v, mo); vclock::mirror_read(&a, mo); vclock::note_rmw(); return r; }
-	T fetch_sub(T v, std::memory_order mo = std::memory_order_seq_cst) { dsched::point(); hb.on_rmw(mo); vclock::mirror_write(&a, mo); T r = a.fetch_sub(v, mo); vclock::mirror_read(&a, mo); vclock::note_rmw(); return r; }
-	T fetch_or(T v, std::memory_order mo = std::memory_order_seq_cst) { dsched::point(); hb.on_rmw(mo); vclock::mirror_write(&a, mo); T r = a.fetch_or(v, mo); vclock::mirror_read(&a, mo); vclock::note_rmw(); return r; }
-	T fetch_and(T v, std::memory_order mo = std::memory_order_seq_cst) { dsched::point(); hb.on_rmw(mo); vclock::mirror_write(&a, mo); T r = a.fetch_and(v, mo); vclock::mirror_read(&a, mo); vclock::note_rmw(); return r; }
-	T fetch_xor(T v, std::memory_order mo = std::memory_order_seq_cst) { dsched::point(); hb.on_rmw(mo); vclock::mirror_write(&a, mo); T r = a.fetch_xor(v, mo); vclock::mirror_read(&a, mo); vclock::note_rmw(); return r; }
+	T exchange(T v, std::memory_order mo = std::memory_order_seq_cst) { dsched::point_rmw(); hb.on_rmw(mo); vclock::mirror_write(&a, mo); T r = a.exchange(v, mo); vclock::mirror_read(&a, mo); vclock::note_rmw(); return r; }
+	T fetch_add(T v, std::memory_order mo = std::memory_order_seq_cst) { dsched::point_rmw(); hb.on_rmw(mo); vclock::mirror_write(&a, mo); T r = a.fetch_add(v, mo); vclock::mirror_read(&a, mo); vclock::note_rmw(); return r; }
+	T fetch_sub(T v, std::memory_order mo = std::memory_order_seq_cst) { dsched::point_rmw(); hb.on_rmw(mo); vclock::mirror_write(&a, mo); T r = a.fetch_sub(v, mo); vclock::mirror_read(&a, mo); vclock::note_rmw(); return r; }
+	T fetch_or(T v, std::memory_order mo = std::memory_order_seq_cst) { dsched::point_rmw(); hb.on_rmw(mo); vclock::mirror_write(&a, mo); T r = a.fetch_or(v, mo); vclock::mirror_read(&a, mo); vclock::note_rmw(); return r; }
+	T fetch_and(T v, std::memory_order mo = std::memory_order_seq_cst) { dsched::point_rmw(); hb.on_rmw(mo); vclock::mirror_write(&a, mo); T r = a.fetch_and(v, mo); vclock::mirror_read(&a, mo); vclock::note_rmw(); return r; }
+	T fetch_xor(T v, std::memory_order mo = std::memory_order_seq_cst) { dsched::point_rmw(); hb.on_rmw(mo); vclock::mirror_write(&a, mo); T r = a.fetch_xor(v, mo); vclock::mirror_read(&a, mo); vclock::note_rmw(); return r; }
 	T operator++() { return fetch_add(1) + 1; }
 	T operator++(int) { return fetch_add(1); }
 	T operator--() { return fetch_sub(1) - 1; }
@@ -32,9 +34,13 @@ struct verif_atomic {
 	T operator-=(T v) { return fetch_sub(v) - v; }
 	T operator|=(T v) { return fetch_or(v) | v; }
 	T operator&=(T v) { return fetch_and(v) & v; }
+	T operator^=(T v) { return fetch_xor(v) ^ v; }
+	void wait(T old, std::memory_order mo = std::memory_order_seq_cst) const { while(load(mo) == old) dsched::spin_yield(); }
+	void notify_one() noexcept {}
+	void notify_all() noexcept {}
 	bool is_lock_free() const noexcept { return a.is_lock_free(); }
-	bool compare_exchange_weak(T &e, T d, std::memory_order s, std::memory_order f) { dsched::point(); vclock::mirror_write(&a, s); bool ok = a.compare_exchange_strong(e, d, s, f); if(ok) { hb.on_rmw(s); vclock::mirror_read(&a, s); vclock::note_rmw(); } else { hb.on_load(f); vclock::mirror_read(&a, f); } return ok; }
-	bool compare_exchange_strong(T &e, T d, std::memory_order s, std::memory_order f) { dsched::point(); vclock::mirror_write(&a, s); bool ok = a.compare_exchange_strong(e, d, s, f); if(ok) { hb.on_rmw(s); vclock::mirror_read(&a, s); vclock::note_rmw(); } else { hb.on_load(f); vclock::mirror_read(&a, f); } return ok; }
+	bool compare_exchange_weak(T &e, T d, std::memory_order s, std::memory_order f) { dsched::point_rmw(); vclock::mirror_write(&a, s); bool ok = a.compare_exchange_strong(e, d, s, f); if(ok) { hb.on_rmw(s); vclock::mirror_read(&a, s); vclock::note_rmw(); } else { hb.on_load(f); vclock::mirror_read(&a, f); } return ok; }
+	bool compare_exchange_strong(T &e, T d, std::memory_order s, std::memory_order f) { dsched::point_rmw(); vclock::mirror_write(&a, s); bool ok = a.compare_exchange_strong(e, d, s, f); if(ok) { hb.on_rmw(s); vclock::mirror_read(&a, s); vclock::note_rmw(); } else { hb.on_load(f); vclock::mirror_read(&a, f); } return ok; }
 	bool compare_exchange_weak(T &e, T d, std::memory_order m = std::memory_order_seq_cst) { return compare_exchange_weak(e, d, m, fail_order(m)); }
 	bool compare_exchange_strong(T &e, T d, std::memory_order m = std::memory_order_seq_cst) { return compare_exchange_strong(e, d, m, fail_order(m)); }
 	static constexpr std::memory_order fail_order(std::memory_order m) { return m == std::memory_order_acq_rel ? std::memory_order_acquire : m == std::memory_order_release ? std::memory_order_relaxed : m; }
